@@ -21,6 +21,31 @@ func cfgEqual(a, b Config) bool {
 	return true
 }
 
+// cfgSnap is a deep copy of a Config (the update flag and the JSON options are held by pointer).
+func cfgSnap(c *Config) Config {
+	out := *c
+	if c.update != nil {
+		u := *c.update
+		out.update = &u
+	}
+	if c.json != nil {
+		j := *c.json
+		out.json = &j
+	}
+	return out
+}
+
+// freezeCfg arms the write monitor on a Config and on what it points to.
+func freezeCfg(c *Config, what string) {
+	vxrt.Freeze(c, what)
+	if c.json != nil {
+		vxrt.Freeze(c.json, what+" (JSON options)")
+	}
+	if c.update != nil {
+		vxrt.Freeze(c.update, what+" (update flag)")
+	}
+}
+
 func callAPI(c *Config, api int, t *mockT, v string) {
 	switch api {
 	case 0:
@@ -55,12 +80,15 @@ func H_C12_immutable() {
 	if vxrt.Bool("with-update") {
 		opts = append(opts, Update(true))
 	}
-	if vxrt.Bool("with-json") {
+	switch vxrt.Choice("with-json", 3) {
+	case 1:
 		opts = append(opts, JSON(JSONConfig{Indent: "  "}))
+	case 2:
+		opts = append(opts, JSON(JSONConfig{SortKeys: true}))
 	}
 	c1 := WithConfig(opts...)
 	c2 := WithConfig(Dir(dir), Filename("other"))
-	snap1, snap2, snapDef := *c1, *c2, defaultConfig
+	snap1, snap2, snapDef := cfgSnap(c1), cfgSnap(c2), cfgSnap(&defaultConfig)
 	var json1 JSONConfig
 	if c1.json != nil {
 		json1 = *c1.json
@@ -70,7 +98,7 @@ func H_C12_immutable() {
 	c3 := WithConfig(append(append([]func(*Config){}, opts...), JSON(JSONConfig{Indent: "\t", Width: 7}), Ext(".x"), Filename("third"), Update(false))...)
 	_ = c3
 	vxrt.Assert(cfgEqual(*c1, snap1) && (c1.json == nil || *c1.json == json1), "C12:configs-built-from-shared-options-are-independent")
-	vxrt.Freeze(c1, "shared Config c1")
+	freezeCfg(c1, "shared Config c1")
 
 	seq := vxrt.Len("calls", 1, vxrt.Param("calls", 2))
 	apis := make([]int, seq)
@@ -151,10 +179,13 @@ func H_C12_concurrent() {
 	if vxrt.Bool("with-ext") {
 		opts = append(opts, Ext(".txt"))
 	}
+	if vxrt.Bool("with-json") {
+		opts = append(opts, JSON(JSONConfig{SortKeys: true}))
+	}
 	c1 := WithConfig(opts...)
-	snap1 := *c1
+	snap1 := cfgSnap(c1)
 	_ = isCI
-	vxrt.Freeze(c1, "shared Config c1")
+	freezeCfg(c1, "shared Config c1")
 	apis := [2]int{vxrt.Choice("api-A", 5), vxrt.Choice("api-B", 5)}
 	// where each call stores when issued alone through an identical Config
 	var alone [2][]string
